@@ -9,7 +9,9 @@ cp -f /repo/go.sum go.sum
 # harness closes them on background threads and needs head-room here
 [ "$(cat /proc/sys/fs/inotify/max_user_instances 2>/dev/null || echo 0)" -lt 4096 ] && echo 8192 > /proc/sys/fs/inotify/max_user_instances 2>/dev/null || true
 go build -o .build/bin/vgen ./cmd/vgen
-.build/bin/vgen -repo /repo -out "$PWD/gen/fsnotify" >/dev/null
+.build/bin/vgen -repo /repo -out "$PWD/gen/fsnotify" -kq "$PWD/gen/kq" >/dev/null
+(cd vtypes && go build -o ../.build/bin/vtypes .)
+.build/bin/vtypes "$PWD" ./gen/fsnotify ./gen/kq -tags verif >/dev/null
 go build -o .build/bin/vxgen ./cmd/vxgen
 .build/bin/vxgen -repo /repo -out "$PWD/gen" >/dev/null
 go build -tags verif -o .build/bin/vharn.setup ./cmd/vharn
